@@ -65,23 +65,27 @@ def main(job_path, out_path):
             d42.substitute(d42.schema.dict({"a": d42.schema.int}), {"a": 1})
             repr(d42.schema.str.regex(r"[^a]\d"))
 
-    results = []
-    for job in jobs:
+    # two passes over the whole job list: the first with nothing else going on in the process (the
+    # reference), the second with unrelated library use before every job -- whatever that leaves
+    # behind (a cache, a counter, a shared table) is there for every later job of the pass
+    def one_run(job):
         schemas = [(am.g_schema(s["a"]) + am.g_schema(s["b"])) if "x" in s else am.g_schema(s)
                    for s in job["seq"]]
-        runs = []
-        for rep in range(2):
-            if rep == 1:
-                unrelated_work(job["id"])
-            del draws[:]
-            Random().set_seed(seed_of(job))
-            vals = []
-            for s in schemas:
-                try:
-                    vals.append(repr(d42.fake(s)))
-                except Exception as e:
-                    vals.append("raised " + type(e).__name__)
-            runs.append((vals, list(draws)))
+        del draws[:]
+        Random().set_seed(seed_of(job))
+        vals = []
+        for s in schemas:
+            try:
+                vals.append(repr(d42.fake(s)))
+            except Exception as e:
+                vals.append("raised " + type(e).__name__)
+        return vals, list(draws)
+
+    first = {job["id"]: one_run(job) for job in jobs}
+    results = []
+    for job in jobs:
+        unrelated_work(job["id"])
+        runs = [first[job["id"]], one_run(job)]
         results.append({"id": job["id"], "first": runs[0][0], "second": runs[1][0],
                         "draws_ok": all(d[3] for d in runs[0][1]) and
                         [d[:3] for d in runs[0][1]] == [d[:3] for d in runs[1][1]],
